@@ -103,6 +103,9 @@ class _StatsModelsAdapter(_OptionalForecastingHorizonMixin, _SktimeForecaster):
 
 
 def _coerce_int_to_range_index(y, X=None):
+    if len(y.index) == 0:
+        # nothing to coerce, empty data is rejected by the input checks in fit
+        return y, X
     new_index = pd.RangeIndex(y.index[0], y.index[-1] + 1)
     try:
         np.testing.assert_array_equal(y.index, new_index)
